@@ -6,6 +6,26 @@ ROOT = "/verif"
 
 # id -> (engine, category, technique, level text, level note, design ref)
 CHECKS = {
+    "C01": ("loopmc", "model_checking",
+            "stateless model checking of the real tokio client loop under a controlled scheduler: deviation-bounded DFS over event orders by re-execution, oracle = simulated MPD server transcript",
+            "All orders of Issue / Deliver (whole, split at line boundaries, 1 byte, len-1) / Notify / Tick / Cancel events within the deviation bound (micro scenarios: all orders) are executed on the real Client with a paused clock and a scripted transport; every completed request is compared with the reply the simulated server wrote for exactly that request line, list errors with their successful frames, per-caller order at the server, and cancellation leaving other callers' replies intact.",
+            "Trusted: mpdref::server (MPD idle/noidle/command-list rules), the one-event-per-step reduction argued in DESIGN.md section 5 (select! with both branches ready = one of the two serialisations), tokio's channels being linearizable. Bounds: <=3 callers, <=3 requests each, deviation bound reported in the evidence.",
+            "DESIGN.md sections 3.1, 4 C01"),
+    "C04": ("loopmc", "model_checking",
+            "stateless model checking of the real client loop (deviation-bounded DFS by re-execution); oracle = changed: lines written by the simulated server vs. events received",
+            "Notifications at every point of every schedule (server idle: immediate reply; not idle: accumulated, so the next idle is answered with several changed lines), every split of idle replies incl. between and inside lines, requests arriving between the parts, the noidle/changed race; the event sequence must be a prefix of the server's changed lines at every step and equal to it at drain.",
+            "Trusted: mpdref::server's idle model (fixed subsystem order, flag semantics). Bounds in the evidence (scenarios, deviation bound).",
+            "DESIGN.md sections 3.1, 4 C04"),
+    "C05": ("loopmc", "model_checking",
+            "stateless model checking of the real client loop; legality of every client write judged by the simulated MPD server and a client-view session automaton",
+            "Every write of every explored schedule is judged at the moment it happens: nothing but noidle while the server waits in idle, a request only after everything the server has sent was read (at most one outstanding), exactly one reply consumed between idle and a request, first line idle, idle again 100 ms after a reply, idling at drain.",
+            "Trusted: mpdref::server; eager server reduction (DESIGN.md section 5).",
+            "DESIGN.md sections 3.1, 4 C05"),
+    "C08": ("loopmc", "fault_enumeration",
+            "exhaustive fault enumeration on the real client loop: one fault of each kind at every step of every schedule within the deviation bound, Close at every offset of the bytes in flight",
+            "For each schedule prefix within the bound one fault (peer close after p more bytes for every p, persistent read error, persistent write error, injected malformed line, all handles dropped) is injected at every step, followed by all continuations within the bound and a drain with a late request; checks: nothing hangs, later requests fail, Ok only for completely delivered matching replies, closed flag, <=1 closing event then end of stream, unclean ends surfaced, transport released.",
+            "Trusted: the fault model (writes after a peer close are accepted silently; errors are persistent); mpdref::wire reference decoder decides whether a cut is on a response boundary.",
+            "DESIGN.md sections 3.1, 4 C08"),
     "C06": ("enum", "model_checking",
             "bounded-exhaustive enumeration of argument strings over a class alphabet, decoded by a port of MPD's tokenizer",
             "Every argument string over 12 class representatives up to length 4 (quick) / 6 (thorough), all pairs (len<=2) and triples (len<=1), through the three string Argument impls, Connection::send and CommandList rendering, is rendered by the real code and read back by the reference tokenizer; the space is enumerated completely within the bound.",
